@@ -23,8 +23,8 @@ LEVEL_TEXT = ("Every catalogue instance of the 'few' tier (all ~345 operator nam
               "paired with themselves, a reconstruction, copy and deepcopy (must be equal with equal hashes) and with every single-field "
               "mutation of their spec (parameter +0.5 / +1e-12, two wires swapped, one wire renamed, control value flipped, every "
               "hyper-parameter / array entry / coefficient / exponent / operand changed): qp.equal must answer the same in both orders for "
-              "structural mutations and a True answer must come with equal matrices; all ordered pairs of one instance per name are "
-              "checked for order-independence too.")
+              "structural mutations and a True answer must come with equal matrices; all pairs of one instance per name (quick: ~110 gate/"
+              "matrix/observable/symbolic names + wrappers of 12 bases; thorough: all ~345 names) are checked for order-independence too.")
 LEVEL_NOTE = ("The clause 'equal => same linear map' is decided only where both objects have a matrix on <= 7 wires (observable matrix for "
               "measurement processes; eigenvalues for measurement-value based processes). Interfaces other than numpy, trainability flags and "
               "tapes are not explored; transitivity is not part of the statement and not checked. Unequal objects are NOT required to have "
@@ -109,6 +109,8 @@ def _same_map(a, b):
     Ma, Mb = _map_of(a, W), _map_of(b, W)
     if Ma is None or Mb is None:
         return None
+    if not (np.all(np.isfinite(Ma)) and np.all(np.isfinite(Mb))):
+        return None  # e.g. a negative fractional power of a singular matrix: no finite matrix to compare
     if Ma.shape != Mb.shape:
         return False
     return bool(np.max(np.abs(Ma - Mb)) <= MTOL * max(1.0, float(np.max(np.abs(Ma))))) if Ma.size else True
@@ -128,7 +130,7 @@ def _label(o):
 
 
 def check_self(spec):
-    o = spec["o"]
+    o = O.canon(spec["o"])
     lab = _label(o)
     try:
         a = O.build(o)
@@ -190,7 +192,7 @@ def judge_pair(a, b, la, lb, mut, structural):
 
 
 def check_mut(spec):
-    o = spec["o"]
+    o = O.canon(spec["o"])
     muts = O.mutations(o)
     lab, structural, mo = muts[spec["i"]]
     if lab != spec["lab"]:
@@ -223,6 +225,7 @@ def run(ctx):
         objs += O.expression_objects(tier)
     if not only or "mp" in only:
         objs += O.measurements(tier)
+    objs = [O.canon(o) for o in objs]
     ctx.enumerate([{"o": o} for o in objs], fn="check_self", axis="self/rebuild/copy/deepcopy")
     mspecs = []
     for o in objs:
